@@ -342,6 +342,9 @@ def handle : List String → String
     match Wire.hexToBytes hex with
     | none => "bad-args"
     | some bs => showFields (unmarshalString bs)
+  -- `wdmg <n> <keep>`: DBWriter.Write on a day whose metadata was truncated / announces more blocks than it
+  -- holds: `Open` fails in `Unmarshal` (`unm` cases, `truncated` in the spec) before anything is written
+  | ["wdmg", _, _] => "err,err unchanged"
   | _ => "bad-op"
 
 end C03
